@@ -523,6 +523,11 @@ func (doc *T) InternalizeRefs(ctx context.Context, refNameResolver func(*T, Comp
 			}
 		}
 		doc.derefHeaders(components.Headers, refNameResolver, false)
+		for _, h := range components.Headers {
+			if h != nil && h.Value != nil {
+				h.Ref = "" // always dereference the top level
+			}
+		}
 		for _, name := range componentNames(components.RequestBodies) {
 			req := components.RequestBodies[name]
 			isExternal := doc.addRequestBodyToSpec(req, refNameResolver, false)
@@ -532,12 +537,30 @@ func (doc *T) InternalizeRefs(ctx context.Context, refNameResolver func(*T, Comp
 			}
 		}
 		doc.derefResponseBodies(components.Responses, refNameResolver, false)
+		for _, r := range components.Responses {
+			if r != nil && r.Value != nil {
+				r.Ref = "" // always dereference the top level
+			}
+		}
 		for _, name := range componentNames(components.SecuritySchemes) {
 			ss := components.SecuritySchemes[name]
 			doc.addSecuritySchemeToSpec(ss, refNameResolver, false)
+			if ss != nil && ss.Value != nil {
+				ss.Ref = "" // always dereference the top level
+			}
 		}
 		doc.derefExamples(components.Examples, refNameResolver, false)
+		for _, e := range components.Examples {
+			if e != nil && e.Value != nil {
+				e.Ref = "" // always dereference the top level
+			}
+		}
 		doc.derefLinks(components.Links, refNameResolver, false)
+		for _, l := range components.Links {
+			if l != nil && l.Value != nil {
+				l.Ref = "" // always dereference the top level
+			}
+		}
 
 		for _, name := range componentNames(components.Callbacks) {
 			cb := components.Callbacks[name]
